@@ -18,6 +18,20 @@ import vcheck
 import wgsltext as W
 
 LEVEL = "proof"
+OUT_BUDGET = 8 << 20
+
+
+def out_sizes(r):
+    """bytes produced per back end in a sizes_only result"""
+    def size(v):
+        if isinstance(v, str):
+            return len(v)
+        if isinstance(v, dict):
+            if set(v.keys()) == {"len"}:
+                return v["len"]
+            return sum(size(e) for k, e in v.items() if k != "info")
+        return 0
+    return {k: size(r.get(k)) // (2 if k in ("spv", "dxil") else 1) for k in ("spv", "hlsl", "msl", "glsl", "dxil")}
 WANT = ["validate", "spv", "hlsl", "msl", "glsl", "dxil"]
 
 
@@ -25,9 +39,8 @@ def crash_key(r):
     """Stable signature of a crash: kind + innermost naga frame (function name),
     so that one defect = one key whatever input triggers it."""
     if "crash" in r:
-        se = r.get("stderr", "")
-        m = re.findall(r"github\.com/gogpu/naga/([\w/\.\(\)\*]+)\(", se)
-        return "%s:%s" % (r["crash"], m[0] if m else "?")
+        m = r.get("frames") or nagarun.naga_frames(r.get("stderr", ""))
+        return "%s:%s" % ("cpu" if r["crash"] == "timeout" else r["crash"], m[0] if m else "?")
     msg = r.get("panic", "")
     st = r.get("stack", "")
     frames = re.findall(r"github\.com/gogpu/naga/([\w/\.\(\)\*]+)\(", st)
@@ -93,8 +106,10 @@ def run(ctx):
         inputs.append(("bytes", W.random_bytes(rng, 1 + rng.below(200))))
     for b in W.eof_edge_inputs():
         inputs.append(("eof", b))
-    for b in W.const_expr_inputs(rng.fork("constexpr"), ctx.scale(500, 20000)):
+    for b in W.const_expr_inputs(rng.fork("constexpr"), ctx.scale(300, 20000)):
         inputs.append(("constexpr", b))
+    for b in W.const_expr_systematic():
+        inputs.append(("constexpr_sys", b))
     hist = {}
     for t, _ in inputs:
         k = t.split(":")[0]
@@ -112,7 +127,8 @@ def run(ctx):
                           key="lexer:" + re.sub(r"\d+", "N", m0["what"])[:60],
                           broken="correspondence lexer model vs implementation")
     # ---- worker search over the whole pipeline
-    jobs = [{"id": i, "hex": b.hex(), "want": WANT} if b else {"id": i, "src": "", "want": WANT}
+    jobs = [{"id": i, "hex": b.hex(), "want": WANT, "opts": {"sizes_only": True}} if b
+            else {"id": i, "src": "", "want": WANT, "opts": {"sizes_only": True}}
             for i, (t, b) in enumerate(inputs)]
     # deep inputs: one process each (a slow one must not take a batch down), generous CPU budget:
     # output size is legitimately quadratic in nesting depth (indentation)
@@ -122,6 +138,9 @@ def run(ctx):
     res.update(nagarun.parallel_batches(tools["nagadrive"], "compile", jobs[ndeep:], per_job_timeout=20.0, chunk=32,
                                         workers=vcheck.NCPU))
     stages = {}
+    nslow = 0
+    worst_cpu = 0
+    worst_out = 0
     ncrash = 0
     seen_keys = set()
     for i, (tag, b) in enumerate(inputs):
@@ -139,8 +158,27 @@ def run(ctx):
         else:
             st = r.get("stage", "compiled")
             stages[st] = stages.get(st, 0) + 1
+            # resources, measured inside the worker.  Output volume is the load-independent signal: a source of
+            # n <= 64 KiB that is not one of the deliberately deep ones (whose output is legitimately quadratic in
+            # the nesting depth: indentation) may produce max(8 MiB, 1024 n) bytes over all six outputs.
+            worst_cpu = max(worst_cpu, r.get("cpu_ms", 0))
+            sizes = out_sizes(r)
+            total = sum(sizes.values())
+            worst_out = max(worst_out, total)
+            if i >= ndeep and total > max(OUT_BUDGET, 1024 * len(b)):
+                nslow += 1
+                stage = max(sizes, key=lambda k: sizes[k])
+                fr = nagarun.where_is_it(tools["nagadrive"], "compile", jobs[i], prefix=stage + "/")
+                key = "blowup:%s" % (fr[0] if fr else stage + "/?")
+                if key in seen_keys:
+                    continue
+                seen_keys.add(key)
+                ctx.violation("%d-byte input %s makes the %s back end produce %d bytes (%.1f s CPU, peak RSS of the worker %d MiB)"
+                              % (len(b), tag, stage, sizes[stage], r.get("cpu_ms", 0) / 1000.0, r.get("maxrss_kib", 0) // 1024),
+                              files={"input.wgsl": b, "detail.txt": "interrupted in: " + " <- ".join(fr[:8])}, key=key)
     ctx.cov["worker_search"] = {"inputs": len(inputs), "input_kinds": hist, "outcome_by_stage": stages,
-                                "crashing_inputs": ncrash, "stages": ["tokenize", "parse", "lower"] + WANT}
+                                "crashing_inputs": ncrash, "over_output_budget": nslow, "worst_cpu_ms": worst_cpu,
+                                "worst_output_bytes": worst_out, "output_budget": "max(8 MiB, 1024 n)", "stages": ["tokenize", "parse", "lower"] + WANT}
     ctx.cov["traces_validated_against_impl"] = ncmp
     ctx.cov["evaluations"] = len(inputs) + ncmp
     ctx.cov["distinct_nontrivial"] = len({b for _, b in inputs})
